@@ -273,9 +273,6 @@ private:
    */
   QUILL_ATTRIBUTE_HOT void _poll()
   {
-    // load all contexts locally
-    _update_active_thread_contexts_cache();
-
     // Read all frontend queues and cache the log statements and the metadata as TransitEvents
     size_t const cached_transit_events_count = _populate_transit_events_from_frontend_queues();
 
@@ -432,6 +429,11 @@ private:
       ? static_cast<uint64_t>((detail::get_timestamp<std::chrono::system_clock>() - _options.log_timestamp_ordering_grace_period)
                                 .count())
       : std::numeric_limits<uint64_t>::max();
+
+    // load all contexts locally. This must happen after ts_now is taken: a context that registers
+    // after this point can only hold statements newer than ts_now, so skipping it in this pass
+    // cannot reorder the output
+    _update_active_thread_contexts_cache();
 
     size_t cached_transit_events_count{0};
 
